@@ -21,7 +21,9 @@ Qed.
 Lemma pre_tmod e i f : pre e (tmod e i f). Proof. now apply pre_eq. Qed.
 Lemma pre_set_err site e i c : pre e (set_err site e i c).
 Proof. unfold set_err. eapply pre_trans; [apply (pre_tmod e i) | apply pre_set_state]. Qed.
-Lemma pre_sched e n p : pre e (sched e n p). Proof. unfold sched. eexists. reflexivity. Qed.
+Lemma pre_sched_v v e n p : pre e (sched_v v e n p). Proof. unfold sched_v. eexists. reflexivity. Qed.
+Lemma pre_sched e n p : pre e (sched e n p). Proof. apply pre_sched_v. Qed.
+Lemma pre_sched_next e n p : pre e (sched_next e n p). Proof. apply pre_sched_v. Qed.
 Lemma pre_fold {B} (g : eng -> B -> eng) l : (forall e b, pre e (g e b)) -> forall e, pre e (fold_left g l e).
 Proof. intros H. induction l as [|b l IH]; intros e; simpl; [apply pre_refl|]. eapply pre_trans; [apply H | apply IH]. Qed.
 Lemma pre_sched_nodes e l i : pre e (sched_nodes e l i).
@@ -107,8 +109,8 @@ Proof.
           destruct (forallb _ _); [|exact XF].
           set (e'' := if negb (is_completed (st e' i)) then set_state 12 e' i SCompleted else e').
           assert (X2 : pre e e'') by (unfold e''; destruct (negb _); [eapply pre_trans; [exact XF | apply pre_set_state] | exact XF]).
-          destruct (n_next _); [eapply pre_trans; [exact X2 | apply pre_sched] | exact X2].
-        + destruct (is (st e i) SSkipped || _); [|apply pre_refl]. destruct (n_next _); [apply pre_sched | apply pre_refl].
+          destruct (n_next _); [eapply pre_trans; [exact X2 | apply pre_sched_v] | exact X2].
+        + destruct (is (st e i) SSkipped || _); [|apply pre_refl]. destruct (n_next _); [apply pre_sched_v | apply pre_refl].
       - destruct (is (st e i) SRunning).
         + match goal with |- pre e (snd (let '(flag, e') := ?F in _)) => assert (XF : pre e (snd F)); [|destruct F as [flag e']; cbn [snd] in XF] end.
           { apply (fold_left_ind' (fun acc => pre e (snd acc))); [apply pre_refl|].
@@ -119,8 +121,8 @@ Proof.
           destruct (forallb _ _); [|exact XF].
           set (e'' := if negb (is_completed (st e' i)) then set_state 12 e' i SCompleted else e').
           assert (X2 : pre e e'') by (unfold e''; destruct (negb _); [eapply pre_trans; [exact XF | apply pre_set_state] | exact XF]).
-          destruct (n_next _); [eapply pre_trans; [exact X2 | apply pre_sched] | exact X2].
-        + destruct (is (st e i) SSkipped || _); [|apply pre_refl]. destruct (n_next _); [apply pre_sched | apply pre_refl]. }
+          destruct (n_next _); [eapply pre_trans; [exact X2 | apply pre_sched_v] | exact X2].
+        + destruct (is (st e i) SSkipped || _); [|apply pre_refl]. destruct (n_next _); [apply pre_sched_v | apply pre_refl]. }
     destruct (is_completed (st e1 i)); [|exact X1].
     assert (X2 : pre e (emit f (update_data e1 i cv) i)) by (eapply pre_trans; [exact X1|]; eapply pre_trans; [apply pre_update_data | apply IHe]).
     destruct (negb isn && _); [|exact X2]. destruct (parent _ _); [eapply pre_trans; [exact X2 | apply IHr] | exact X2]. }
@@ -147,13 +149,13 @@ Proof.
           * destruct (forallb _ _); simpl; [|exact HS1].
             set (e'' := if negb (is_completed (st e2 i)) then set_state 16 e2 i SCompleted else e2).
             assert (X2 : pre e e'') by (unfold e''; destruct (negb _); [eapply pre_trans; [exact HS1 | apply pre_set_state] | exact HS1]).
-            destruct (n_next _); simpl; [eapply pre_trans; [exact X2 | apply pre_sched] | exact X2].
-        + destruct (is (st e i) SSkipped); [|apply pre_refl]. destruct (n_next _); [apply pre_sched | apply pre_refl].
+            destruct (n_next _); simpl; [eapply pre_trans; [exact X2 | apply pre_sched_v] | exact X2].
+        + destruct (is (st e i) SSkipped); [|apply pre_refl]. destruct (n_next _); [apply pre_sched_v | apply pre_refl].
       - destruct (is (st e i) SRunning); [|apply pre_refl]. destruct (act_scan _ _ _); [apply pre_refl | apply pre_set_state|].
         destruct (Nat.eqb _ _); [|apply pre_refl].
         set (e'' := if negb (is_completed (st e i)) then set_state 18 e i SCompleted else e).
         assert (X2 : pre e e'') by (unfold e''; destruct (negb _); [apply pre_set_state | apply pre_refl]).
-        destruct (n_next _); [eapply pre_trans; [exact X2 | apply pre_sched] | exact X2]. }
+        destruct (n_next _); [eapply pre_trans; [exact X2 | apply pre_sched_v] | exact X2]. }
     set (e2 := if is_completed (st e1 i) && negb (is (st e i) (st e1 i)) then emit f e1 i else e1).
     assert (X2 : pre e0 e2).
     { eapply pre_trans; [exact X0|]. eapply pre_trans; [exact X1|]. unfold e2. destruct (_ && _); [apply IHe | apply pre_refl]. }
